@@ -522,7 +522,10 @@ class MarkdownNormalizer(Renderer):
     def render_thematic_break(self, _element: block.ThematicBreak) -> str:
         # Reset the skip flag since we're not rendering a blank line
         self._skip_next_blank_line = False
-        result = f"{self._prefix}* * *\n"
+        # Directly after a `*` bullet the usual `* * *` would read as a longer rule
+        # (`* * * *`) instead of a list item holding a rule.
+        rule = "- - -" if self._prefix.rstrip().endswith("*") else "* * *"
+        result = f"{self._prefix}{rule}\n"
         self._prefix = self._second_prefix
         return result
 
